@@ -360,6 +360,17 @@ def rule_radix(E, R):
             cs = C17.chars_of_pat(a["pat"])
             called = sorted({last_seg(norm(c.get("callee", ""))) for c in exprs(a["body"], "Call")
                              if norm(c.get("callee", "")).startswith("rhs_types::bytes::")})
+            # what the arm appends, by role: a decoded byte (hex_byte / oct_byte), or the matched character itself (handed
+            # to whatever private helper encodes it)
+            if not set(called) & {"hex_byte", "oct_byte"} and called:
+                cn_ = local_name(m["scrut"])
+                uses_char = any(local_name(p_) == cn_ or local_name(p_) in pat_bindings(a["pat"]) for c in exprs(a["body"], "Call")
+                                if norm(c.get("callee", "")).startswith("rhs_types::bytes::") for p_ in exprs(c, "Path"))
+                appends = any(c["m"] in ("push", "extend", "extend_from_slice") for c in exprs(a["body"], "MethodCall")) or \
+                    any("&mut alloc::vec::Vec<u8>" in norm(x.get("ty", "")) or "&mut alloc::vec::Vec<u8>" in norm(x.get("aty", ""))
+                        for c in exprs(a["body"], "Call") for x in c.get("args", []))
+                if uses_char and appends:
+                    called = ["write_char"]
             rets = bool(explicit_err_returns(a["body"])) or norm(tail(a["body"]).get("callee", "")) == "core::result::Result::Err"
             key = "".join(sorted(cs)) if cs is not None else "_"
             arms[key] = (tuple(called), rets)
@@ -501,10 +512,14 @@ def rule_checked_conversions(E, R):
                     outer = mc
             if id(outer) in leaves:
                 return True
+            # `let Ok(x) = conv(..) else { return Err(..) };`
+            for st_ in exprs(h["body"], "SLet"):
+                if "els" in st_ and "init" in st_ and deref(st_["init"]) is outer and pat_variant(st_["pat"]) == "core::result::Result::Ok":
+                    return bool(explicit_err_returns(st_["els"]))
             for m_ in exprs(h["body"], "Match"):
                 if sem.is_try(m_) and sem.peel(sem.try_inner(m_)) is outer:
                     return True
-                if not sem.is_try(m_) and strip(m_["scrut"]) is outer:
+                if not sem.is_try(m_) and deref(m_["scrut"]) is outer:
                     err_arm = [a_ for a_ in m_["arms"] if pat_variant(a_["pat"]) == "core::result::Result::Err"]
                     return bool(err_arm) and (norm(tail(err_arm[0]["body"]).get("callee", "")) == "core::result::Result::Err" or
                                               bool(explicit_err_returns(err_arm[0]["body"])))
